@@ -230,11 +230,40 @@ def _generator_inlinable(h):
     return True
 
 
-def _leaves_loop(body):
+def _yield_in_loop_tail(h):
+    """the generator has a single `yield`, and it is the last thing an iteration of its innermost enclosing loop does (reached
+    through `if`s only): a `continue` of the consumer's loop body is then a `continue` of that loop"""
+    ys = [n for n in ast.walk(h) if isinstance(n, ast.Expr) and isinstance(n.value, ast.Yield)]
+    if len(ys) != 1:
+        return False
+    y = ys[0]
+    loops = [n for n in ast.walk(h) if isinstance(n, (ast.For, ast.While)) and any(y is x for b in n.body for x in ast.walk(b))]
+    if not loops:
+        return False
+    inner = [lp for lp in loops if not any(o is not lp and any(o is x for x in ast.walk(lp)) for o in loops)]
+    if len(inner) != 1:
+        return False
+
+    def tail(stmts):
+        if not stmts:
+            return False
+        last = stmts[-1]
+        if last is y:
+            return True
+        if isinstance(last, ast.If):
+            if any(y is x for b in last.body for x in ast.walk(b)):
+                return tail(last.body)
+            if any(y is x for b in last.orelse for x in ast.walk(b)):
+                return tail(last.orelse)
+        return False
+    return tail(inner[0].body)
+
+
+def _leaves_loop(body, kinds=(ast.Break, ast.Continue)):
     """break / continue that belong to the loop whose body this is"""
     def visit(stmts):
         for st in stmts:
-            if isinstance(st, (ast.Break, ast.Continue)):
+            if isinstance(st, kinds):
                 return True
             if isinstance(st, (ast.For, ast.AsyncFor, ast.While)):
                 if visit(st.orelse):
@@ -359,6 +388,8 @@ class _Flattener(object):
         if t is None:
             return None
         name, h, params = t
+        if gen_for is not None and _leaves_loop(gen_for[1]) and not _yield_in_loop_tail(h):
+            return None
         self.counter += 1
         k = self.counter
         binding = {}
@@ -669,7 +700,7 @@ class _Flattener(object):
         if isinstance(st, ast.For) and isinstance(st.iter, ast.Name) and st.iter.id in self.gen_locals:
             st = copy.copy(st)
             st.iter = self.gen_locals[st.iter.id]
-        if isinstance(st, ast.For) and isinstance(st.iter, ast.Call) and not st.orelse and not _leaves_loop(st.body):
+        if isinstance(st, ast.For) and isinstance(st.iter, ast.Call) and not st.orelse and not _leaves_loop(st.body, (ast.Break,)):
             # `for x in _generator_helper(...)`: the helper's body with the loop body at every yield.  `list(gen(..))` / `tuple(..)`
             # materialise the items first; for what is done with each item (the view the rules take) the order of the two
             # activities does not matter, so the wrapper is looked through
